@@ -12,6 +12,7 @@ require (
 require (
 	github.com/mattn/go-colorable v0.1.13 // indirect
 	github.com/mattn/go-isatty v0.0.19 // indirect
+	github.com/rs/xid v1.6.0 // indirect
 	golang.org/x/sys v0.12.0 // indirect
 )
 
